@@ -218,6 +218,20 @@ def raised(exc: type) -> bool:  # replaced by the evaluator (post-state of excep
     return False
 
 
+RNG_RECORDER: list = []  # run-time form: outputs of the OS generator drawn during the call under check
+
+
+def fresh_in_call(x: Any, except_at: tuple = ()) -> bool:
+    """x is a value the random generator produced *during this call* (ghost: rng.tick advanced inside the call), possibly
+    with the bytes at the listed indices altered afterwards."""
+    if not isinstance(x, (bytes, bytearray)):
+        return False
+    for d in RNG_RECORDER:
+        if len(d) == len(x) and all(x[i] == d[i] for i in range(len(x)) if i not in except_at):
+            return True
+    return False
+
+
 def typed(x: Any, t: Any) -> bool:
     return isinstance(x, t)
 
